@@ -961,8 +961,11 @@ class VizierServicer(vizier_service_pb2_grpc.VizierServiceServicer):
             vector_value = trial_metric_id_to_value[metric_id]
           objective_vector.append(vector_value)
 
-        considered_trials.append(trial)
-        considered_trial_objective_vectors.append(objective_vector)
+        # A trial whose objective is not a number cannot be optimal (NaN is
+        # incomparable: it would never be dominated).
+        if not np.any(np.isnan(objective_vector)):
+          considered_trials.append(trial)
+          considered_trial_objective_vectors.append(objective_vector)
 
     if not considered_trials:
       return vizier_service_pb2.ListOptimalTrialsResponse(optimal_trials=[])
